@@ -191,11 +191,12 @@ def _conform_filename(
         rewrite_at_query.visit(parsed_ast)
 
         if rewrite_at_query.replaced:
-            with open(filename, "rt") as f:
+            with open(filename, "rb") as f:
                 previous_src = f.read()
             emit.file(parsed_ast, filename, mode="wt", skip_black=False)
-            with open(filename, "rt") as f:
+            with open(filename, "rb") as f:
                 # Only report a modification when the bytes actually differ
+                # (read as bytes: text mode hides a change of line endings)
                 replaced = f.read() != previous_src
 
         print("modified" if replaced else "unchanged", filename, sep="\t")
